@@ -29,6 +29,7 @@ type TierSpec struct {
 	MaxPaths int            `json:"max_paths"`
 	TimeoutS int            `json:"timeout_s"`
 	OblS     int            `json:"obligation_timeout_s"`
+	PipeS    int            `json:"pipe_timeout_s"` // incremental-pipe timeout per obligation (default 10); lower it for FP-heavy harnesses that only the portfolio decides
 	Skip     bool           `json:"skip"`
 }
 
